@@ -20,6 +20,7 @@ type ModUpCase struct {
 	LevelQ   int        `json:"levelQ"`
 	LevelP   int        `json:"levelP"`
 	PtoQ     bool       `json:"PtoQ"` // ModUpPtoQ (source P) instead of ModUpQtoP (source Q)
+	Prior    bool       `json:"prior,omitempty"` // polys live at the maximum levels and were used by a (checked) call at the maximum levels before
 	Coeffs   []CoefSpec `json:"coeffs"`
 	DirtSeed uint64     `json:"dirt"`
 }
@@ -33,9 +34,10 @@ func genModUp(t *rapid.T) ModUpCase {
 	wideChains = true
 	c.Chain = genChains(t, 3, maxLogN, 1, maxQ, 1, maxP, true)
 	wideChains = false
-	c.LevelQ = rapid.IntRange(0, len(c.Chain.Q)-1).Draw(t, "levelQ")
+	c.LevelQ = genLevel(t, len(c.Chain.Q), "levelQ")
 	c.LevelP = rapid.IntRange(0, len(c.Chain.P)-1).Draw(t, "levelP")
 	c.PtoQ = rapid.Bool().Draw(t, "PtoQ")
+	c.Prior = rapid.IntRange(0, 2).Draw(t, "prior") == 0
 	c.Coeffs = genCoefs(t, []string{"uni", "small", "edge", "edge", "quart", "quart", "crt"})
 	c.DirtSeed = rapid.Uint64().Draw(t, "dirt")
 	return c
@@ -50,75 +52,94 @@ func runModUp(c ModUpCase, rec *h.Rec) error {
 		return nil
 	}
 	N := c.Chain.N()
-	src, dst := c.Chain.Q[:c.LevelQ+1], c.Chain.P[:c.LevelP+1]
 	name := "ModUpQtoP"
 	if c.PtoQ {
-		src, dst = dst, src
 		name = "ModUpPtoQ"
 	}
-	M := prod(src)
-	// x is the centred representative of the source value
-	x := h.VecCenter(buildCoeffs(c.Coeffs, N, M, nil, bigs(src), nil), M)
-
+	// receivers: exact size, or (Prior) maximum-level polynomials with an earlier life
 	pQ := rQ.AtLevel(c.LevelQ).NewPoly()
 	pP := rP.AtLevel(c.LevelP).NewPoly()
-	var out ring.Poly
-	if c.PtoQ {
-		setPoly(pP, x, src)
-		dirty(pQ, dst, c.DirtSeed)
-		be.ModUpPtoQ(c.LevelP, c.LevelQ, pP, pQ)
-		out = pQ
-	} else {
-		setPoly(pQ, x, src)
-		dirty(pP, dst, c.DirtSeed)
-		be.ModUpQtoP(c.LevelQ, c.LevelP, pQ, pP)
-		out = pP
+	rounds := []levelsRound{{c.LevelQ, c.LevelP, c.Coeffs, ""}}
+	if c.Prior {
+		pQ, pP = rQ.NewPoly(), rP.NewPoly()
+		rounds = []levelsRound{{len(c.Chain.Q) - 1, len(c.Chain.P) - 1, []CoefSpec{{Kind: "uni", U: c.DirtSeed}}, ":first-use"}, rounds[0]}
 	}
-	got, over := limbs(out, dst)
+	dirty(pQ, c.Chain.Q, c.DirtSeed)
+	dirty(pP, c.Chain.P, c.DirtSeed+7)
 
-	// oracle: one common k in {-1,0,1} with out = x + k*M on all target limbs; k = 0 whenever |x| < M/4
-	Mrns := h.ToRNS([]*big.Int{M}, dst)
-	xr := h.ToRNS(x, dst)
+	var src, dst []uint64
+	var over uint64
 	quarterHit, shifted := false, false
-	for j := 0; j < N; j++ {
-		kFound, ok := 0, false
-		for _, k := range []int{0, -1, 1} {
-			match := true
-			for i, q := range dst {
-				w := xr[i][j]
-				switch k {
-				case 1:
-					w = (w + Mrns[i][0]) % q
-				case -1:
-					w = (w + q - Mrns[i][0]) % q
+	for _, rd := range rounds {
+		src, dst = c.Chain.Q[:rd.lq+1], c.Chain.P[:rd.lp+1]
+		if c.PtoQ {
+			src, dst = dst, src
+		}
+		M := prod(src)
+		// x is the centred representative of the source value
+		x := h.VecCenter(buildCoeffs(rd.coeffs, N, M, nil, bigs(src), nil), M)
+		var in, out ring.Poly
+		if c.PtoQ {
+			in, out = pP, pQ
+		} else {
+			in, out = pQ, pP
+		}
+		setPoly(in, x, src)
+		before := *in.CopyNew()
+		if c.PtoQ {
+			be.ModUpPtoQ(rd.lp, rd.lq, pP, pQ)
+		} else {
+			be.ModUpQtoP(rd.lq, rd.lp, pQ, pP)
+		}
+		if !in.Equal(&before) {
+			return h.Failf("C02:"+name+":input-modified", "%s levelQ=%d levelP=%d: the source polynomial (which stays part of the extended value) was modified", name, rd.lq, rd.lp)
+		}
+		var got [][]uint64
+		got, over = limbs(out, dst)
+
+		// oracle: one common k in {-1,0,1} with out = x + k*M on all target limbs; k = 0 whenever |x| < M/4
+		Mrns := h.ToRNS([]*big.Int{M}, dst)
+		xr := h.ToRNS(x, dst)
+		quarterHit, shifted = false, false
+		for j := 0; j < N; j++ {
+			kFound, ok := 0, false
+			for _, k := range []int{0, -1, 1} {
+				match := true
+				for i, q := range dst {
+					w := xr[i][j]
+					switch k {
+					case 1:
+						w = (w + Mrns[i][0]) % q
+					case -1:
+						w = (w + q - Mrns[i][0]) % q
+					}
+					if w != got[i][j] {
+						match = false
+						break
+					}
 				}
-				if w != got[i][j] {
-					match = false
+				if match {
+					kFound, ok = k, true
 					break
 				}
 			}
-			if match {
-				kFound, ok = k, true
-				break
+			if !ok {
+				return h.Failf("C02:"+name+":not-congruent"+rd.tag,
+					"%s levelQ=%d levelP=%d prior=%v: coefficient %d is not x+k*M (k in -1,0,1) on the target limbs: x=%s M=%s got residues (first limb) %d mod %d",
+					name, rd.lq, rd.lp, c.Prior, j, x[j], M, got[0][j], dst[0])
 			}
-		}
-		if !ok {
-			return h.Failf("C02:"+name+":not-congruent",
-				"%s levelQ=%d levelP=%d: coefficient %d is not x+k*M (k in -1,0,1) on the target limbs: x=%s M=%s got residues (first limb) %d mod %d",
-				name, c.LevelQ, c.LevelP, j, x[j], M, got[0][j], dst[0])
-		}
-		abs4 := new(big.Int).Abs(x[j])
-		abs4.Lsh(abs4, 2)
-		if abs4.Cmp(M) < 0 {
-			quarterHit = true
-			if kFound != 0 {
-				// is k=0 also consistent (target modulus so small that M = 0 on it)? then nothing is wrong
-				return h.Failf("C02:"+name+":quarter-rule",
-					"%s levelQ=%d levelP=%d: coefficient %d: |x| < M/4 but the result is x%+d*M: x=%s M=%s",
-					name, c.LevelQ, c.LevelP, j, kFound, x[j], M)
+			abs4 := new(big.Int).Abs(x[j])
+			abs4.Lsh(abs4, 2)
+			if abs4.Cmp(M) < 0 {
+				quarterHit = true
+				if kFound != 0 {
+					return h.Failf("C02:"+name+":quarter-rule"+rd.tag,
+						"%s levelQ=%d levelP=%d prior=%v: coefficient %d: |x| < M/4 but the result is x%+d*M: x=%s M=%s",
+						name, rd.lq, rd.lp, c.Prior, j, kFound, x[j], M)
+				}
+			} else if kFound != 0 {
+				shifted = true
 			}
-		} else if kFound != 0 {
-			shifted = true
 		}
 	}
 
@@ -129,6 +150,7 @@ func runModUp(c ModUpCase, rec *h.Rec) error {
 	rec.Classf("dst=%s", sizeClass(dst))
 	rec.Classf("nsrc=%d", len(src))
 	rec.Classf("ci=%v", c.Chain.CI)
+	rec.Classf("prior=%v", c.Prior)
 	if len(src) >= 9 && sizeClass(src) == "max" {
 		rec.Class("src>=9x60/61bit")
 	}
@@ -138,7 +160,7 @@ func runModUp(c ModUpCase, rec *h.Rec) error {
 		rec.Class("k!=0 seen (|x|>=M/4)")
 	}
 	if hasBoundary(c.Coeffs) && quarterHit {
-		rec.NonTrivial(fmt.Sprintf("%s|N=%d|ci=%v|lq=%d/%d|lp=%d/%d|%s>%s|%s", name, N, c.Chain.CI, c.LevelQ, len(c.Chain.Q)-1, c.LevelP, len(c.Chain.P)-1,
+		rec.NonTrivial(fmt.Sprintf("%s|N=%d|ci=%v|prior=%v|lq=%d/%d|lp=%d/%d|%s>%s|%s", name, N, c.Chain.CI, c.Prior, c.LevelQ, len(c.Chain.Q)-1, c.LevelP, len(c.Chain.P)-1,
 			sizeClass(src), sizeClass(dst), kindsOf(c.Coeffs)))
 	}
 	return nil
@@ -158,6 +180,7 @@ type ModDownCase struct {
 	LevelP   int        `json:"levelP"`
 	Op       string     `json:"op"` // QPtoQ | QPtoQNTT | QPtoP
 	InPlace  bool       `json:"inPlace"`
+	Prior    bool       `json:"prior,omitempty"` // polys live at the maximum levels and were used by a (checked) call at the maximum levels before
 	Coeffs   []CoefSpec `json:"coeffs"`
 	DirtSeed uint64     `json:"dirt"`
 }
@@ -172,9 +195,10 @@ func genModDown(t *rapid.T) ModDownCase {
 	wideChains = true
 	c.Chain = genChains(t, 3, maxLogN, 1, maxQ, 1, maxP, true)
 	wideChains = false
-	c.LevelQ = rapid.IntRange(0, len(c.Chain.Q)-1).Draw(t, "levelQ")
+	c.LevelQ = genLevel(t, len(c.Chain.Q), "levelQ")
 	c.LevelP = rapid.IntRange(0, len(c.Chain.P)-1).Draw(t, "levelP")
 	c.InPlace = rapid.Bool().Draw(t, "inPlace")
+	c.Prior = rapid.IntRange(0, 2).Draw(t, "prior") == 0
 	c.Coeffs = genCoefs(t, []string{"uni", "small", "mul", "mul", "half", "half", "edge", "crt", "mulo", "mulo"})
 	c.DirtSeed = rapid.Uint64().Draw(t, "dirt")
 	return c
@@ -189,88 +213,121 @@ func runModDown(c ModDownCase, rec *h.Rec) error {
 		return nil
 	}
 	N := c.Chain.N()
-	Q, P := c.Chain.Q[:c.LevelQ+1], c.Chain.P[:c.LevelP+1]
-	bQ, bP := prod(Q), prod(P)
-	QP := new(big.Int).Mul(bQ, bP)
 	name := "ModDown" + c.Op
-	div, tgt, tgtMod := bP, Q, bQ // divide by P, result modulo Q
-	if c.Op == "QPtoP" {
-		div, tgt, tgtMod = bQ, P, bP
-	}
-	x := buildCoeffs(c.Coeffs, N, QP, []*big.Int{div}, append(bigs(Q), bigs(P)...), tgtMod)
-
-	ringQ, ringP := rQ.AtLevel(c.LevelQ), rP.AtLevel(c.LevelP)
-	pQ, pP := ringQ.NewPoly(), ringP.NewPoly()
-	setPoly(pQ, x, Q)
-	setPoly(pP, x, P)
-	var out ring.Poly
-	switch c.Op {
-	case "QPtoQ", "QPtoQNTT":
-		out = pQ
-		if !c.InPlace {
-			out = ringQ.NewPoly()
-			dirty(out, Q, c.DirtSeed)
-		}
-		if c.Op == "QPtoQ" {
-			be.ModDownQPtoQ(c.LevelQ, c.LevelP, pQ, pP, out)
-		} else {
-			ringQ.NTT(pQ, pQ)
-			ringP.NTT(pP, pP)
-			be.ModDownQPtoQNTT(c.LevelQ, c.LevelP, pQ, pP, out)
-			tmp := ringQ.NewPoly()
-			ringQ.INTT(out, tmp)
-			out = tmp
-		}
-	case "QPtoP":
-		out = pP
-		if !c.InPlace {
-			out = ringP.NewPoly()
-			dirty(out, P, c.DirtSeed)
-		}
-		be.ModDownQPtoP(c.LevelQ, c.LevelP, pQ, pP, out)
-	default:
+	if c.Op != "QPtoQ" && c.Op != "QPtoQNTT" && c.Op != "QPtoP" {
 		return nil
 	}
-	gotL, over := limbs(out, tgt)
-	got := h.CRT(gotL, tgt)
-
 	alias := ""
 	if c.InPlace {
 		alias = ":inplace"
 	}
-	exact, offBy1, nonzero := 0, 0, false
-	for j := 0; j < N; j++ {
-		want := h.RoundDiv(x[j], div)
-		e := h.Center(new(big.Int).Sub(got[j], want), tgtMod)
-		if want.Sign() != 0 {
-			nonzero = true
+	// inputs and receiver: exact size, or (Prior) maximum-level polynomials with an earlier life
+	pQ, pP := rQ.AtLevel(c.LevelQ).NewPoly(), rP.AtLevel(c.LevelP).NewPoly()
+	recv := rQ.AtLevel(c.LevelQ).NewPoly()
+	if c.Op == "QPtoP" {
+		recv = rP.AtLevel(c.LevelP).NewPoly()
+	}
+	rounds := []levelsRound{{c.LevelQ, c.LevelP, c.Coeffs, ""}}
+	if c.Prior {
+		pQ, pP, recv = rQ.NewPoly(), rP.NewPoly(), rQ.NewPoly()
+		if c.Op == "QPtoP" {
+			recv = rP.NewPoly()
 		}
-		if e.IsInt64() && e.Int64() == 0 {
-			exact++
-			continue
+		rounds = []levelsRound{{len(c.Chain.Q) - 1, len(c.Chain.P) - 1, []CoefSpec{{Kind: "uni", U: c.DirtSeed}}, ":first-use"}, rounds[0]}
+	}
+	dirty(pQ, c.Chain.Q, c.DirtSeed+1)
+	dirty(pP, c.Chain.P, c.DirtSeed+2)
+	if c.Op == "QPtoP" {
+		dirty(recv, c.Chain.P, c.DirtSeed)
+	} else {
+		dirty(recv, c.Chain.Q, c.DirtSeed)
+	}
+
+	var Q, P []uint64
+	var over uint64
+	offBy1, nonzero, inputsTouched := 0, false, false
+	for _, rd := range rounds {
+		Q, P = c.Chain.Q[:rd.lq+1], c.Chain.P[:rd.lp+1]
+		bQ, bP := prod(Q), prod(P)
+		QP := new(big.Int).Mul(bQ, bP)
+		div, tgt, tgtMod := bP, Q, bQ // divide by P, result modulo Q
+		if c.Op == "QPtoP" {
+			div, tgt, tgtMod = bQ, P, bP
 		}
-		if e.IsInt64() && (e.Int64() == 1 || e.Int64() == -1) && tgtMod.Cmp(big.NewInt(3)) > 0 {
-			offBy1++
-			continue
-		}
-		key := "C02:" + name + ":error>1" + alias
-		msg := fmt.Sprintf("%s levelQ=%d levelP=%d N=%d ci=%v: coefficient %d: result - round(x/D) = %s (mod target modulus %s); x=%s D=%s round=%s",
-			name, c.LevelQ, c.LevelP, N, c.Chain.CI, j, e, tgtMod, x[j], div, want)
+		x := buildCoeffs(rd.coeffs, N, QP, []*big.Int{div}, append(bigs(Q), bigs(P)...), tgtMod)
+
+		ringQ, ringP := rQ.AtLevel(rd.lq), rP.AtLevel(rd.lp)
+		setPoly(pQ, x, Q)
+		setPoly(pP, x, P)
 		if c.Op == "QPtoQNTT" {
-			// consequence of the known NTTLazy range excess: garbage on a >2^64/10 limb
-			for i, q := range Q {
-				wl := new(big.Int).Mod(want, h.BU(q)).Uint64()
-				if d := (gotL[i][j] + q - wl) % q; d > 1 && d < q-1 && nttLazyOverflowClass(c.Chain, q) {
-					key = "C02:" + name + ":nttlazy-overflow:ci-odd-logN-61bit"
-					if rec.Known(key, msg) {
-						rec.Classf("known=%s:nttlazy-overflow", name)
-						return nil
-					}
-					return h.Failf(key, "%s", msg)
-				}
+			ringQ.NTT(pQ, pQ)
+			ringP.NTT(pP, pP)
+		}
+		out := recv
+		if c.InPlace {
+			out = pQ
+			if c.Op == "QPtoP" {
+				out = pP
 			}
 		}
-		return h.Failf(key, "%s", msg)
+		beforeQ, beforeP := *pQ.CopyNew(), *pP.CopyNew()
+		switch c.Op {
+		case "QPtoQ":
+			be.ModDownQPtoQ(rd.lq, rd.lp, pQ, pP, out)
+		case "QPtoQNTT":
+			be.ModDownQPtoQNTT(rd.lq, rd.lp, pQ, pP, out)
+		case "QPtoP":
+			be.ModDownQPtoP(rd.lq, rd.lp, pQ, pP, out)
+		}
+		// inputs that are not the receiver: recorded only (input preservation is the subject of C09)
+		if (!c.InPlace || c.Op == "QPtoP") && !pQ.Equal(&beforeQ) {
+			inputsTouched = true
+		}
+		if (!c.InPlace || c.Op != "QPtoP") && !pP.Equal(&beforeP) {
+			inputsTouched = true
+		}
+		res := out
+		if c.Op == "QPtoQNTT" {
+			res = ringQ.NewPoly()
+			ringQ.INTT(ring.Poly{Coeffs: out.Coeffs[:rd.lq+1]}, res)
+		}
+		var gotL [][]uint64
+		gotL, over = limbs(res, tgt)
+		got := h.CRT(gotL, tgt)
+
+		offBy1, nonzero = 0, false
+		for j := 0; j < N; j++ {
+			want := h.RoundDiv(x[j], div)
+			e := h.Center(new(big.Int).Sub(got[j], want), tgtMod)
+			if want.Sign() != 0 {
+				nonzero = true
+			}
+			if e.IsInt64() && e.Int64() == 0 {
+				continue
+			}
+			if e.IsInt64() && (e.Int64() == 1 || e.Int64() == -1) && tgtMod.Cmp(big.NewInt(3)) > 0 {
+				offBy1++
+				continue
+			}
+			key := "C02:" + name + ":error>1" + alias + rd.tag
+			msg := fmt.Sprintf("%s levelQ=%d levelP=%d N=%d ci=%v prior=%v: coefficient %d: result - round(x/D) = %s (mod target modulus %s); x=%s D=%s round=%s",
+				name, rd.lq, rd.lp, N, c.Chain.CI, c.Prior, j, e, tgtMod, x[j], div, want)
+			if c.Op == "QPtoQNTT" {
+				// consequence of the (fixed) NTTLazy range excess: garbage on a >2^64/10 limb
+				for i, q := range Q {
+					wl := new(big.Int).Mod(want, h.BU(q)).Uint64()
+					if d := (gotL[i][j] + q - wl) % q; d > 1 && d < q-1 && nttLazyOverflowClass(c.Chain, q) {
+						key = "C02:" + name + ":nttlazy-overflow:ci-odd-logN-61bit"
+						if rec.Known(key, msg) {
+							rec.Classf("known=%s:nttlazy-overflow", name)
+							return nil
+						}
+						return h.Failf(key, "%s", msg)
+					}
+				}
+			}
+			return h.Failf(key, "%s", msg)
+		}
 	}
 
 	rec.Classf("op=%s", name)
@@ -291,10 +348,16 @@ func runModDown(c ModDownCase, rec *h.Rec) error {
 	}
 	if c.InPlace {
 		rec.Class("inplace")
+	} else {
+		rec.Class("out-of-place")
+	}
+	rec.Classf("prior=%v", c.Prior)
+	if inputsTouched {
+		rec.Class("non-receiver input modified (C09 matter)")
 	}
 	if hasBoundary(c.Coeffs) && nonzero {
-		rec.NonTrivial(fmt.Sprintf("%s|N=%d|ci=%v|lq=%d/%d|lp=%d/%d|Q=%s|P=%s|%s|inpl=%v", name, N, c.Chain.CI, c.LevelQ, len(c.Chain.Q)-1, c.LevelP,
-			len(c.Chain.P)-1, sizeClass(Q), sizeClass(P), kindsOf(c.Coeffs), c.InPlace))
+		rec.NonTrivial(fmt.Sprintf("%s|N=%d|ci=%v|lq=%d/%d|lp=%d/%d|Q=%s|P=%s|%s|inpl=%v|prior=%v", name, N, c.Chain.CI, c.LevelQ, len(c.Chain.Q)-1, c.LevelP,
+			len(c.Chain.P)-1, sizeClass(Q), sizeClass(P), kindsOf(c.Coeffs), c.InPlace, c.Prior))
 	}
 	return nil
 }
